@@ -229,6 +229,43 @@ fn random_env(seed: u32, slot: u32) -> (Vec<(String, String)>, std::path::PathBu
     ];
     // a variable of random length shifts the process's initial stack/ASLR layout
     env.push((format!("PAD_{}", m >> 40 & 0xf), "x".repeat(((m >> 44) & 0x3ff) as usize)));
+    // the generator is meant to run in build scripts: the variables cargo sets for them (each one
+    // present or absent, with the usual values) must not influence the text either
+    let m2 = crate::chooser::mix(m, 0x6275696c64);
+    let pick = |k: u32, vals: &[&str]| -> Option<String> {
+        let r = (m2 >> (k * 3)) & 7;
+        if r as usize >= vals.len() {
+            None
+        } else {
+            Some(vals[r as usize].to_string())
+        }
+    };
+    for (k, (name, vals)) in [
+        ("PROFILE", &["debug", "release"][..]),
+        ("DEBUG", &["true", "false"][..]),
+        ("OPT_LEVEL", &["0", "3", "s"][..]),
+        ("TARGET", &["x86_64-unknown-linux-gnu", "wasm32-unknown-unknown", "aarch64-apple-darwin"][..]),
+        ("HOST", &["x86_64-unknown-linux-gnu"][..]),
+        ("OUT_DIR", &["/tmp/out", "/nonexistent/target/debug/build/x-1/out"][..]),
+        ("CARGO_MANIFEST_DIR", &["/", "/nonexistent/crate"][..]),
+        ("CARGO_PKG_NAME", &["app", "shaders"][..]),
+        ("CARGO_CFG_TARGET_ARCH", &["x86_64", "wasm32"][..]),
+        ("CARGO_CFG_DEBUG_ASSERTIONS", &[""][..]),
+        ("NUM_JOBS", &["1", "16"][..]),
+        ("RUSTFMT", &["/nonexistent/rustfmt"][..]),
+        ("RUSTC", &["rustc"][..]),
+        ("CI", &["true", "1"][..]),
+        ("TERM", &["dumb", "xterm-256color"][..]),
+        ("SOURCE_DATE_EPOCH", &["0", "1700000000"][..]),
+        ("WGPU_BACKEND", &["vulkan", "gl"][..]),
+    ]
+    .iter()
+    .enumerate()
+    {
+        if let Some(v) = pick(k as u32, vals) {
+            env.push((name.to_string(), v));
+        }
+    }
     (env, cwd)
 }
 
